@@ -72,6 +72,7 @@ opq_eq = Function('opq_eq', Val, Val, BoolSort())                 # not assumed 
 opq_hashable = Function('opq_hashable', IntSort(), BoolSort())
 dict_nonempty = Function('dict_nonempty', IntSort(), BoolSort())
 fs_nonempty = Function('fs_nonempty', IntSort(), BoolSort())
+class_name = Function('class_name', IntSort(), StringSort())        # class id -> __name__
 class_of = Function('class_of', IntSort(), IntSort())             # heap object -> class id
 subclass = Function('subclass', IntSort(), IntSort(), BoolSort())  # class id lattice (pinned by spec axioms)
 
